@@ -139,7 +139,7 @@ func c10Run(srv *server, actions []c10Action) (sig, detail string, stats map[str
 	stats = map[string]int{}
 	type sess struct{ info sessionInfo }
 	var sessions []sess
-	var conns []*c10Conn // all connections ever made
+	var conns []*c10Conn                        // all connections ever made
 	registered := map[int]map[string]*c10Conn{} // session -> peer id -> connection that currently owns the id
 	var msgs []*c10Msg
 	defer func() {
